@@ -24,7 +24,7 @@ ASSUMPTIONS = [
     "unit-dependent ranges are not 'fixed ranges': only their in-range behaviour is claimed",
     "the class of the exception raised for an invalid enum name/value is not claimed, only that one is raised and the previous value stays",
 ]
-REQUIRED_LABELS = {"quick": ["strict_reject", "lenient_accept", "ctor_reject", "enum_by_name", "dependent_unit", "history_lenient_out_of_range", "history_repeat_out_of_range_strict", "history_repeat_in_range", "prelude_user_subclasses"], "thorough": ["strict_reject", "lenient_accept", "ctor_reject", "enum_by_name", "dependent_unit"]}
+REQUIRED_LABELS = {"quick": ["strict_reject", "lenient_accept", "ctor_reject", "enum_by_name", "dependent_unit", "history_lenient_out_of_range", "history_repeat_out_of_range_strict", "history_repeat_in_range", "prelude_user_subclasses", "change_hook_assigns_sibling"], "thorough": ["strict_reject", "lenient_accept", "ctor_reject", "enum_by_name", "dependent_unit"]}
 
 
 def exhaustive(tier):
@@ -261,7 +261,16 @@ def history(draw):
     for _ in range(n):
         c = draw(st.sampled_from(fixed))
         if c.kind in ("range", "compact", "no_offset"):
-            mode = draw(st.sampled_from(["in", "in", "in", "below", "above", "lenient_out", "repeat", "repeat"]))
+            mode = draw(st.sampled_from(["in", "in", "in", "below", "above", "lenient_out", "repeat", "repeat", "hook_in", "hook_out"]))
+            if mode in ("hook_in", "hook_out"):
+                # the module's change hook for this controller assigns another (ranged) controller of the
+                # same module: an in-range value there, or an out-of-range one (which must be refused there too)
+                others = [x for x in fixed if x.kind in ("range", "compact", "no_offset") and x.name != c.name]
+                if others:
+                    d = draw(st.sampled_from(others))
+                    dv = draw(vs.edge_int(d.min, d.max)) if mode == "hook_in" else d.max + draw(st.integers(1, 999))
+                    steps.append([c.name, mode, [draw(vs.edge_int(c.min, c.max)), d.name, dv]])
+                continue
             if mode == "repeat":
                 # assign again whatever the controller holds now (in strict mode)
                 steps.append([c.name, "repeat", None])
@@ -333,6 +342,38 @@ def run_history(ctx, h):
             model[name] = v
             lenient_stored.add(name)
             labels.add("history_lenient_out_of_range")
+            continue
+        if mode in ("hook_in", "hook_out"):
+            v, dname, dv = v
+            fired = []
+
+            def hook(value, down=False, up=False, _d=dname, _dv=dv):
+                fired.append(value)
+                setattr(mod, _d, _dv)
+
+            setattr(mod, "on_%s_changed" % name, hook)
+            try:
+                setattr(mod, name, v)
+            except Exception as e:  # noqa: BLE001
+                err = e
+            finally:
+                mod.__dict__.pop("on_%s_changed" % name, None)
+            labels.add("change_hook_assigns_sibling")
+            if not fired:
+                continue  # this module type does not call instance hooks for this controller: nothing to claim
+            if not same(getattr(mod, name), v):
+                raise PropertyViolation("C09.history.hook.source", "%s <- %r with a change hook: reads %r" % (ent, v, getattr(mod, name)), key="C09.history.hook:" + ent)
+            model[name] = v
+            lenient_stored.discard(name)
+            if mode == "hook_in":
+                if err is not None or not same(getattr(mod, dname), dv):
+                    raise PropertyViolation("C09.history.hook.accept", "%s.%s <- %r from inside the change hook of %s: err=%r reads %r" % (h["type"], dname, dv, name, err, getattr(mod, dname)), key="C09.history.hook:%s.%s" % (h["type"], dname))
+                model[dname] = dv
+                lenient_stored.discard(dname)
+            else:
+                if not isinstance(err, ControllerValueError) or not same(getattr(mod, dname), model[dname]):
+                    raise PropertyViolation("C09.history.hook.reject", "%s.%s <- %r (out of range) from inside the change hook of %s: expected ControllerValueError and the old value %r, got err=%r value %r" % (h["type"], dname, dv, name, model[dname], err, getattr(mod, dname)), key="C09.history.hook:%s.%s" % (h["type"], dname))
+            nontriv = True
             continue
         if mode == "repeat":
             v = prev
